@@ -14,8 +14,10 @@ package definition
 //@ model github.com/zenon-network/go-zenon/common/db:DB stakeAmt map[arr]map[arr]int
 //@ model github.com/zenon-network/go-zenon/common/db:DB stakeExp map[arr]map[arr]int
 
+//@ spec stakeKey(i arr, a arr) int = bcat(bcat(bytesval(stakeInfoPrefix), arrbytes(a, 20)), arrbytes(i, 32))
 //@ func GetStakeInfo(context, id, address) -> (info, err)
 //@   trusted
+//@   at-call Get assert[key-of-id-and-address] bytesval(arg1) == stakeKey(id, address)
 //@   ensures err == nil ==> info != nil && fresh(info) && context.stakeHas[id][address] && info.Id == id && info.StakeAddress == address && info.Amount != nil && val(info.Amount) == context.stakeAmt[id][address] && info.ExpirationTime == context.stakeExp[id][address]
 //@   ensures err != nil ==> info == nil
 //@   ensures err == constants.ErrDataNonExistent <==> !context.stakeHas[id][address]
@@ -23,6 +25,7 @@ package definition
 
 //@ func StakeInfo.Save(stake, context) -> (err)
 //@   trusted
+//@   at-call Put assert[key-of-id-and-address] bytesval(arg1) == stakeKey(stake.Id, stake.StakeAddress)
 //@   requires stake != nil && stake.Amount != nil
 //@   ensures err == nil ==> context.stakeHas == store(old(context.stakeHas), stake.Id, store(old(context.stakeHas[stake.Id]), stake.StakeAddress, true))
 //@   ensures err == nil ==> context.stakeAmt == store(old(context.stakeAmt), stake.Id, store(old(context.stakeAmt[stake.Id]), stake.StakeAddress, val(stake.Amount)))
@@ -32,6 +35,7 @@ package definition
 
 //@ func StakeInfo.Delete(stake, context) -> (err)
 //@   trusted
+//@   at-call Delete assert[key-of-id-and-address] bytesval(arg1) == stakeKey(stake.Id, stake.StakeAddress)
 //@   requires stake != nil
 //@   ensures err == nil ==> context.stakeHas == store(old(context.stakeHas), stake.Id, store(old(context.stakeHas[stake.Id]), stake.StakeAddress, false)) && context.stakeAmt == store(old(context.stakeAmt), stake.Id, store(old(context.stakeAmt[stake.Id]), stake.StakeAddress, 0))
 //@   ensures err != nil ==> context.stakeHas == old(context.stakeHas) && context.stakeAmt == old(context.stakeAmt)
@@ -44,15 +48,22 @@ package definition
 //@ model github.com/zenon-network/go-zenon/common/db:DB fusionBen map[arr]map[arr]arr
 //@ model github.com/zenon-network/go-zenon/common/db:DB fusedAmt map[arr]int
 
+// Key agreement (checked on the bodies although the typed contracts are trusted): reading, writing and deleting a fusion
+// entry all address the store under prefix ++ owner ++ id.
+//@ spec fusionKey(o arr, i arr) int = bcat(bytesval(fusionInfoKeyPrefix), bcat(arrbytes(o, 20), arrbytes(i, 32)))
 //@ func GetFusionInfo(context, owner, id) -> (info, err)
 //@   trusted
+//@   at-call Get assert[key-of-owner-and-id] bytesval(arg1) == fusionKey(owner, id)
 //@   ensures err == nil ==> info != nil && fresh(info) && context.fusionHas[owner][id] && info.Owner == owner && info.Id == id && info.Amount != nil && val(info.Amount) == context.fusionAmt[owner][id] && info.ExpirationHeight == context.fusionExp[owner][id] && info.Beneficiary == context.fusionBen[owner][id]
 //@   ensures err != nil ==> info == nil
 //@   ensures err == constants.ErrDataNonExistent <==> !context.fusionHas[owner][id]
 //@   modifies nothing
 
+//@ spec abipack_III(n string, a0 int, a1 int, a2 int) int
 //@ func FusionInfo.Save(entry, context) -> (err)
 //@   trusted
+//@   at-call Put assert[stores-amount-expiration-beneficiary] bytesval(arg2) == abipack_III(variableNameFusionInfo, val(entry.Amount), entry.ExpirationHeight, int(entry.Beneficiary))
+//@   at-call Put assert[key-of-owner-and-id] bytesval(arg1) == fusionKey(entry.Owner, entry.Id)
 //@   requires entry != nil && entry.Amount != nil
 //@   ensures err == nil ==> context.fusionHas == store(old(context.fusionHas), entry.Owner, store(old(context.fusionHas[entry.Owner]), entry.Id, true))
 //@   ensures err == nil ==> context.fusionAmt == store(old(context.fusionAmt), entry.Owner, store(old(context.fusionAmt[entry.Owner]), entry.Id, val(entry.Amount)))
@@ -63,20 +74,26 @@ package definition
 
 //@ func FusionInfo.Delete(entry, context) -> (err)
 //@   trusted
+//@   at-call Delete assert[key-of-owner-and-id] bytesval(arg1) == fusionKey(entry.Owner, entry.Id)
 //@   requires entry != nil
 //@   ensures err == nil ==> context.fusionHas == store(old(context.fusionHas), entry.Owner, store(old(context.fusionHas[entry.Owner]), entry.Id, false)) && context.fusionAmt == store(old(context.fusionAmt), entry.Owner, store(old(context.fusionAmt[entry.Owner]), entry.Id, 0))
 //@   ensures err != nil ==> context.fusionHas == old(context.fusionHas) && context.fusionAmt == old(context.fusionAmt)
 //@   modifies context.fusionHas, context.fusionAmt
 
 // The per-beneficiary total; an absent record reads as zero.
+//@ spec fusedKey(b arr) int = bcat(bytesval(fusedAmountKeyPrefix), arrbytes(b, 20))
 //@ func GetFusedAmount(context, beneficiary) -> (fused, err)
 //@   trusted
+//@   at-call Get assert[key-of-beneficiary] bytesval(arg1) == fusedKey(beneficiary)
 //@   ensures err == nil ==> fused != nil && fresh(fused) && fused.Beneficiary == beneficiary && fused.Amount != nil && fresh(fused.Amount) && val(fused.Amount) == context.fusedAmt[beneficiary]
 //@   ensures err != nil ==> fused == nil
 //@   modifies nothing
 
+//@ spec abipack_I(n string, a0 int) int
 //@ func FusedAmount.Save(entry, context) -> (err)
 //@   trusted
+//@   at-call Put assert[key-of-beneficiary] bytesval(arg1) == fusedKey(entry.Beneficiary)
+//@   at-call Put assert[stores-amount] bytesval(arg2) == abipack_I(variableNameFusedAmount, val(entry.Amount))
 //@   requires entry != nil && entry.Amount != nil
 //@   ensures err == nil ==> context.fusedAmt == store(old(context.fusedAmt), entry.Beneficiary, val(entry.Amount))
 //@   ensures err != nil ==> context.fusedAmt == old(context.fusedAmt)
@@ -84,6 +101,7 @@ package definition
 
 //@ func FusedAmount.Delete(entry, context) -> (err)
 //@   trusted
+//@   at-call Delete assert[key-of-beneficiary] bytesval(arg1) == fusedKey(entry.Beneficiary)
 //@   requires entry != nil
 //@   ensures err == nil ==> context.fusedAmt == store(old(context.fusedAmt), entry.Beneficiary, 0)
 //@   ensures err != nil ==> context.fusedAmt == old(context.fusedAmt)
@@ -103,8 +121,10 @@ package definition
 //@ model github.com/zenon-network/go-zenon/common/db:DB proxyHas map[arr]bool
 //@ model github.com/zenon-network/go-zenon/common/db:DB proxyAllowed map[arr]bool
 
+//@ spec htlcKey(i arr) int = bcat(bytesval(htlcInfoKeyPrefix), arrbytes(i, 32))
 //@ func GetHtlcInfo(context, id) -> (info, err)
 //@   trusted
+//@   at-call Get assert[key-of-id] bytesval(arg1) == htlcKey(id)
 //@   ensures err == nil ==> info != nil && fresh(info) && context.htlcHas[id] && info.Id == id && info.Amount != nil && val(info.Amount) == context.htlcAmt[id]
 //@   ensures err == nil ==> info.TimeLocked == context.htlcTimeLocked[id] && info.HashLocked == context.htlcHashLocked[id] && info.TokenStandard == context.htlcToken[id] && info.ExpirationTime == context.htlcExp[id] && info.HashType == context.htlcHashType[id] && info.KeyMaxSize == context.htlcKeyMax[id]
 //@   ensures err == nil ==> len(info.HashLock) == context.htlcLockLen[id] && (forall j int :: 0 <= j && j < len(info.HashLock) ==> info.HashLock[j] == context.htlcLockByte[id][j])
@@ -112,8 +132,11 @@ package definition
 //@   ensures err == constants.ErrDataNonExistent <==> !context.htlcHas[id]
 //@   modifies nothing
 
+//@ spec abipack_IIIIIIII(n string, a0 int, a1 int, a2 int, a3 int, a4 int, a5 int, a6 int, a7 int) int
 //@ func HtlcInfo.Save(h, context) -> (err)
 //@   trusted
+//@   at-call Put assert[stores-the-fields-in-order] bytesval(arg2) == abipack_IIIIIIII(variableNameHtlcInfo, int(h.TimeLocked), int(h.HashLocked), int(h.TokenStandard), val(h.Amount), h.ExpirationTime, h.HashType, h.KeyMaxSize, bytesval(h.HashLock))
+//@   at-call Put assert[key-of-id] bytesval(arg1) == htlcKey(h.Id)
 //@   requires h != nil && h.Amount != nil
 //@   ensures err == nil ==> context.htlcHas == store(old(context.htlcHas), h.Id, true) && context.htlcAmt == store(old(context.htlcAmt), h.Id, val(h.Amount)) && context.htlcTimeLocked == store(old(context.htlcTimeLocked), h.Id, h.TimeLocked) && context.htlcHashLocked == store(old(context.htlcHashLocked), h.Id, h.HashLocked)
 //@   ensures err == nil ==> context.htlcToken == store(old(context.htlcToken), h.Id, h.TokenStandard) && context.htlcExp == store(old(context.htlcExp), h.Id, h.ExpirationTime) && context.htlcHashType == store(old(context.htlcHashType), h.Id, h.HashType) && context.htlcKeyMax == store(old(context.htlcKeyMax), h.Id, h.KeyMaxSize) && context.htlcLockLen == store(old(context.htlcLockLen), h.Id, len(h.HashLock))
@@ -123,20 +146,26 @@ package definition
 
 //@ func HtlcInfo.Delete(h, context) -> (err)
 //@   trusted
+//@   at-call Delete assert[key-of-id] bytesval(arg1) == htlcKey(h.Id)
 //@   requires h != nil
 //@   ensures err == nil ==> context.htlcHas == store(old(context.htlcHas), h.Id, false) && context.htlcAmt == store(old(context.htlcAmt), h.Id, 0)
 //@   ensures err != nil ==> context.htlcHas == old(context.htlcHas) && context.htlcAmt == old(context.htlcAmt)
 //@   modifies context.htlcHas, context.htlcAmt
 
+//@ spec proxyKey(a arr) int = bcat(bytesval(htlcProxyUnlockInfoKeyPrefix), arrbytes(a, 20))
 //@ func GetHtlcProxyUnlockInfo(context, address) -> (info, err)
 //@   trusted
+//@   at-call Get assert[key-of-address] bytesval(arg1) == proxyKey(address)
 //@   ensures err == nil ==> info != nil && fresh(info) && context.proxyHas[address] && info.Address == address && info.Allowed == context.proxyAllowed[address]
 //@   ensures err != nil ==> info == nil
 //@   ensures err == constants.ErrDataNonExistent <==> !context.proxyHas[address]
 //@   modifies nothing
 
+//@ spec abipack_B(n string, a0 bool) int
 //@ func HtlcProxyUnlockInfo.Save(entry, context) -> (err)
 //@   trusted
+//@   at-call Put assert[stores-the-flag] bytesval(arg2) == abipack_B(variableNameHtlcProxyUnlockInfo, entry.Allowed)
+//@   at-call Put assert[key-of-address] bytesval(arg1) == proxyKey(entry.Address)
 //@   requires entry != nil
 //@   ensures err == nil ==> context.proxyHas == store(old(context.proxyHas), entry.Address, true) && context.proxyAllowed == store(old(context.proxyAllowed), entry.Address, entry.Allowed)
 //@   ensures err != nil ==> context.proxyHas == old(context.proxyHas) && context.proxyAllowed == old(context.proxyAllowed)
@@ -145,8 +174,10 @@ package definition
 // ---- QSR deposits held by the pillar / sentinel contracts: owner -> amount (an absent record reads as zero) -------------------
 //@ model github.com/zenon-network/go-zenon/common/db:DB qsrDep map[arr]int
 
+//@ spec qsrKey(a arr) int = bcat(bytesval(qsrDepositKeyPrefix), arrbytes(a, 20))
 //@ func GetQsrDeposit(context, address) -> (deposit, err)
 //@   trusted
+//@   at-call Get assert[key-of-address] bytesval(arg1) == qsrKey(deref(address))
 //@   requires address != nil
 //@   ensures err == nil ==> deposit != nil && fresh(deposit) && deposit.Address != nil && deref(deposit.Address) == deref(address) && deposit.Qsr != nil && fresh(deposit.Qsr) && val(deposit.Qsr) == context.qsrDep[deref(address)]
 //@   ensures err == nil ==> val(deposit.Qsr) >= 0
@@ -155,6 +186,8 @@ package definition
 
 //@ func QsrDeposit.Save(deposit, context) -> (err)
 //@   trusted
+//@   at-call Put assert[key-of-address] bytesval(arg1) == qsrKey(deref(deposit.Address))
+//@   at-call Put assert[stores-amount] bytesval(arg2) == abipack_I(QsrDepositVariableName, val(deposit.Qsr))
 //@   requires deposit != nil && deposit.Qsr != nil && deposit.Address != nil
 //@   ensures err == nil ==> context.qsrDep == store(old(context.qsrDep), deref(deposit.Address), val(deposit.Qsr))
 //@   ensures err != nil ==> context.qsrDep == old(context.qsrDep)
@@ -162,6 +195,7 @@ package definition
 
 //@ func QsrDeposit.Delete(deposit, context) -> (err)
 //@   trusted
+//@   at-call Delete assert[key-of-address] bytesval(arg1) == qsrKey(deref(deposit.Address))
 //@   requires deposit != nil && deposit.Address != nil
 //@   ensures err == nil ==> context.qsrDep == store(old(context.qsrDep), deref(deposit.Address), 0)
 //@   ensures err != nil ==> context.qsrDep == old(context.qsrDep)
@@ -181,8 +215,10 @@ package definition
 //@   ensures err == constants.ErrDataNonExistent <==> !context.pillarHas[name]
 //@   modifies nothing
 
+//@ spec abipack_SIIIIIIIII(n string, a0 string, a1 int, a2 int, a3 int, a4 int, a5 int, a6 int, a7 int, a8 int, a9 int) int
 //@ func PillarInfo.Save(pillar, context) -> (err)
 //@   trusted
+//@   at-call Put assert[stores-the-fields-in-order] bytesval(arg2) == abipack_SIIIIIIIII(pillarInfoVariableName, pillar.Name, int(pillar.BlockProducingAddress), int(pillar.RewardWithdrawAddress), int(pillar.StakeAddress), val(pillar.Amount), pillar.RegistrationTime, pillar.RevokeTime, pillar.GiveBlockRewardPercentage, pillar.GiveDelegateRewardPercentage, pillar.PillarType)
 //@   requires pillar != nil && pillar.Amount != nil
 //@   ensures err == nil ==> context.pillarHas == store(old(context.pillarHas), pillar.Name, true) && context.pillarOwner == store(old(context.pillarOwner), pillar.Name, pillar.StakeAddress) && context.pillarAmt == store(old(context.pillarAmt), pillar.Name, val(pillar.Amount)) && context.pillarReg == store(old(context.pillarReg), pillar.Name, pillar.RegistrationTime) && context.pillarRevoked == store(old(context.pillarRevoked), pillar.Name, pillar.RevokeTime)
 //@   ensures err != nil ==> context.pillarHas == old(context.pillarHas) && context.pillarOwner == old(context.pillarOwner) && context.pillarAmt == old(context.pillarAmt) && context.pillarReg == old(context.pillarReg) && context.pillarRevoked == old(context.pillarRevoked)
@@ -197,6 +233,7 @@ package definition
 
 //@ func GetSentinelInfoByOwner(context, address) -> (sentinel)
 //@   trusted
+//@   at-call Get assert[key-of-owner] blen(bytesval(arg1)) == 21 && btail(bytesval(arg1)) == arrbytes(address, 20)
 //@   ensures sentinel != nil <==> context.sentinelHas[address]
 //@   ensures sentinel != nil ==> fresh(sentinel) && sentinel.SentinelInfoKey.Owner == address && sentinel.ZnnAmount != nil && fresh(sentinel.ZnnAmount) && sentinel.QsrAmount != nil && fresh(sentinel.QsrAmount) && sentinel.ZnnAmount != sentinel.QsrAmount
 //@   ensures sentinel != nil ==> val(sentinel.ZnnAmount) == context.sentinelZnn[address] && val(sentinel.QsrAmount) == context.sentinelQsr[address] && sentinel.RegistrationTimestamp == context.sentinelReg[address] && sentinel.RevokeTimestamp == context.sentinelRevoked[address]
@@ -204,6 +241,7 @@ package definition
 
 //@ func SentinelInfo.Save(sentinel, context)
 //@   trusted
+//@   at-call Put assert[key-of-owner] blen(bytesval(arg1)) == 21 && btail(bytesval(arg1)) == arrbytes(sentinel.Owner, 20)
 //@   requires sentinel != nil && sentinel.ZnnAmount != nil && sentinel.QsrAmount != nil
 //@   ensures context.sentinelHas == store(old(context.sentinelHas), sentinel.SentinelInfoKey.Owner, true) && context.sentinelZnn == store(old(context.sentinelZnn), sentinel.SentinelInfoKey.Owner, val(sentinel.ZnnAmount)) && context.sentinelQsr == store(old(context.sentinelQsr), sentinel.SentinelInfoKey.Owner, val(sentinel.QsrAmount))
 //@   ensures context.sentinelReg == store(old(context.sentinelReg), sentinel.SentinelInfoKey.Owner, sentinel.RegistrationTimestamp) && context.sentinelRevoked == store(old(context.sentinelRevoked), sentinel.SentinelInfoKey.Owner, sentinel.RevokeTimestamp)
@@ -211,12 +249,15 @@ package definition
 
 // Producing-address index and pillar list of the pillar contract: other records of the same storage, not part of the
 // collateral accounting; ASSUMED to leave the pillar entries alone.
+//@ spec producingKey(a arr) int = bcat(bytesval(producingPillarNameKeyPrefix), arrbytes(a, 20))
 //@ func GetProducingPillarName(context, address) -> (pp, err)
 //@   trusted
+//@   at-call Get assert[key-of-producer-address] bytesval(arg1) == producingKey(address)
 //@   ensures err == nil ==> pp != nil
 //@   modifies nothing
 //@ func ProducingPillar.Save(ppName, context) -> (err)
 //@   trusted
+//@   at-call Put assert[key-of-producer-address] bytesval(arg1) == producingKey(deref(ppName.Producing))
 //@   modifies nothing
 //@ func GetPillarsList(context, onlyActive, pillarType) -> (list, err)
 //@   trusted
@@ -237,11 +278,13 @@ package definition
 //@ model github.com/zenon-network/go-zenon/common/db:DB sporkHeight map[arr]int
 //@ func GetSporkInfoById(context, id)
 //@   trusted
+//@   at-call Get assert[key-of-id] blen(bytesval(arg1)) == 33 && btail(bytesval(arg1)) == arrbytes(id, 32)
 //@   ensures result != nil <==> context.sporkHas[id]
 //@   ensures result != nil ==> fresh(result) && result.Id == id && result.Activated == context.sporkActivated[id] && result.EnforcementHeight == context.sporkHeight[id]
 //@   modifies nothing
 //@ func Spork.Save(spork, context)
 //@   trusted
+//@   at-call Put assert[key-of-id] blen(bytesval(arg1)) == 33 && btail(bytesval(arg1)) == arrbytes(spork.Id, 32)
 //@   requires spork != nil
 //@   ensures context.sporkHas == store(old(context.sporkHas), spork.Id, true) && context.sporkActivated == store(old(context.sporkActivated), spork.Id, spork.Activated) && context.sporkHeight == store(old(context.sporkHeight), spork.Id, spork.EnforcementHeight)
 //@   modifies MF:common/db.DB.spork*
@@ -253,15 +296,20 @@ package definition
 //@ model github.com/zenon-network/go-zenon/common/db:DB tokenMax map[arr]int
 //@ model github.com/zenon-network/go-zenon/common/db:DB tokenMintable map[arr]bool
 //@ model github.com/zenon-network/go-zenon/common/db:DB tokenBurnable map[arr]bool
+//@ spec tokenKey(t arr) int = bcat(bytesval(tokenInfoKeyPrefix), arrbytes(t, 10))
 //@ func GetTokenInfo(context, ts) -> (info, err)
 //@   trusted
+//@   at-call Get assert[key-of-token-standard] bytesval(arg1) == tokenKey(ts)
 //@   ensures err == nil ==> info != nil && fresh(info) && context.tokenHas[ts] && info.TokenStandard == ts && info.Owner == context.tokenOwner[ts] && info.IsMintable == context.tokenMintable[ts] && info.IsBurnable == context.tokenBurnable[ts]
 //@   ensures err == nil ==> info.TotalSupply != nil && fresh(info.TotalSupply) && info.MaxSupply != nil && fresh(info.MaxSupply) && info.TotalSupply != info.MaxSupply && val(info.TotalSupply) == context.tokenTotal[ts] && val(info.MaxSupply) == context.tokenMax[ts]
 //@   ensures err != nil ==> info == nil
 //@   ensures err == constants.ErrDataNonExistent <==> !context.tokenHas[ts]
 //@   modifies nothing
+//@ spec abipack_ISSSIIIBBB(n string, a0 int, a1 string, a2 string, a3 string, a4 int, a5 int, a6 int, a7 bool, a8 bool, a9 bool) int
 //@ func TokenInfo.Save(token, context) -> (err)
 //@   trusted
+//@   at-call Put assert[stores-the-fields-in-order] bytesval(arg2) == abipack_ISSSIIIBBB(tokenInfoVariableName, int(token.Owner), token.TokenName, token.TokenSymbol, token.TokenDomain, val(token.TotalSupply), val(token.MaxSupply), token.Decimals, token.IsMintable, token.IsBurnable, token.IsUtility)
+//@   at-call Put assert[key-of-token-standard] bytesval(arg1) == tokenKey(token.TokenStandard)
 //@   requires token != nil && token.TotalSupply != nil && token.MaxSupply != nil
 //@   ensures err == nil ==> context.tokenHas == store(old(context.tokenHas), token.TokenStandard, true) && context.tokenOwner == store(old(context.tokenOwner), token.TokenStandard, token.Owner) && context.tokenTotal == store(old(context.tokenTotal), token.TokenStandard, val(token.TotalSupply)) && context.tokenMax == store(old(context.tokenMax), token.TokenStandard, val(token.MaxSupply)) && context.tokenMintable == store(old(context.tokenMintable), token.TokenStandard, token.IsMintable) && context.tokenBurnable == store(old(context.tokenBurnable), token.TokenStandard, token.IsBurnable)
 //@   ensures err != nil ==> context.tokenHas == old(context.tokenHas) && context.tokenTotal == old(context.tokenTotal) && context.tokenMax == old(context.tokenMax) && context.tokenOwner == old(context.tokenOwner)
